@@ -35,4 +35,8 @@ ENTRIES = [
     # try_request_pieces: 'Don't start requesting if we can't do it in large enough chunks': pipe_size() >= (pipeSize + A) / B
     ("c04_pipe_gate_add", "src/protocol/peer_connection_base.cc", r"if \(request_list\(\)->pipe_size\(\) >= \(pipeSize \+ (\d+)\) / \d+\)", "N"),
     ("c04_pipe_gate_div", "src/protocol/peer_connection_base.cc", r"if \(request_list\(\)->pipe_size\(\) >= \(pipeSize \+ \d+\) / (\d+)\)", "N"),
+    # CHOKE handler restores the interest of a connection that our own choke queue had choked (proposed repair; 0 = absent)
+    ("c04_choke_restores_interest", "src/protocol/peer_connection_leech.cc",
+     r"(if \(!m_down_interested && m_down_choke\.queued\(\)\) \{\s*m_send_interested = true;\s*m_down_interested = true;\s*\})?\s*request_list\(\)->choked\(\);",
+     "N", lambda m: 1 if m.group(1) else 0),
 ]
